@@ -166,5 +166,14 @@ ErrsKids(M, toks, ks, i) == IF i > Len(ks) THEN <<>> ELSE ErrsOf(M, toks, ks[i])
 SyntaxErrors(M, toks) ==
   LET top == M[Key("Term", 0)]  es == ErrsOf(M, toks, Key("Term", 0)) IN
   IF es = <<>> /\ top.next # Len(toks) THEN <<Err(top.next, "EOF")>> ELSE es
+\* the results the parse of the start symbol asks for, directly or through the functions it calls (worklist closure over `used`):
+\* with memoisation these are exactly the results a parse computes, each once
+RECURSIVE Reach(_,_,_,_)
+Reach(M, toks, todo, seen) ==
+  IF todo = {} THEN seen
+  ELSE LET k == CHOOSE x \in todo : TRUE
+           u == Body(M, toks, M[k].nt, M[k].start).used IN
+       Reach(M, toks, (todo \cup ((u \cap DOMAIN M) \ seen)) \ {k}, seen \cup {k})
+Demanded(M, toks) == Reach(M, toks, {Key("Term", 0)}, {})
 PegAccepts(toks) == \E M \in {Table(toks)} : SyntaxErrors(M, toks) = <<>>
 ====
